@@ -239,6 +239,8 @@ void run_exec(const Execution &ex) {
     ctl.max_steps = 20000;
     ctl.rng = vs::Rng((uint64_t) ex.cfg.num("seed", 1));
     ctl.spurious_per_1000 = (int) ex.cfg.num("spurious", 0);
+    // a timed wait (none in the code as it stands) may time out at any moment: the holder may be arbitrarily slow
+    ctl.timeout_per_1000 = (int) ex.cfg.num("timeouts", 40);
     ctl.stay_num = (int) ex.cfg.num("stay", 1);
     ctl.stay_den = (int) ex.cfg.num("stayden", 2);
     int d = (int) ex.cfg.num("pct", 0);
